@@ -213,6 +213,8 @@ def accessor(ctx, letters):
             ({}, "ws2dwcv", dict(srange=DEFAULT, robust=True)),
             ({"robust": False}, "ws2dwcv", dict(srange=DEFAULT, robust=False)),
             ({"p": 0.9}, "ws2dwcvp", dict(srange=DEFAULT, robust=True, p=0.9)),
+            ({"p": 0.5, "robust": False}, "ws2dwcvp", dict(srange=DEFAULT, robust=False, p=0.5)),   # p = 0.5 is still the asymmetric smoother (all weights 0.5)
+            ({"p": 0.5}, "ws2dwcvp", dict(srange=DEFAULT, robust=True, p=0.5)),
             ({"p": 0.9, "robust": False, "srange": np.arange(-2.0, 2.0)}, "ws2dwcvp", dict(srange=np.arange(-2.0, 2.0), robust=False, p=0.9)),
         ):
             ds = da.hdc.whit.whitswcv(nodata=nd, **kwargs)
